@@ -284,19 +284,22 @@ def main(argv=None) -> int:
                     print(f"HARNESS-ERROR property={prop} shard={idx}\n{err}")
                     return 2
                 results[idx] = res
+        probe_failed = None
         if probe:
             again = results.pop(-1)
             first = results[order[0]]
             if again["digest"] != first["digest"] or again["evaluations"] != first["evaluations"]:
-                print(f"HARNESS-NONDETERMINISM property={prop} shard={order[0]}: two runs of the same shard observed different things")
-                return 2
-        return _finish(prop, mod, ns, [results[i] for i in sorted(results)], len(shard_list), "first shard executed twice in separate worker processes; observation digests equal" if probe else None, known, seed, t0)
+                # the same shard gave different observations in two worker processes with different load histories: either the harness or the
+                # library carries state from one case to the next.  Violations found are still reported (exit 1); with none, this is exit 2.
+                probe_failed = f"shard {order[0]}"
+        return _finish(prop, mod, ns, [results[i] for i in sorted(results)], len(shard_list), "first shard executed twice in separate worker processes; observation digests equal" if probe else None, known, seed, t0,
+                       probe_failed=probe_failed)
     finally:
         os.chdir("/")
         sandbox.cleanup_run_top()
 
 
-def _finish(prop, mod, ns, result_list, nshards, probe, known, seed, t0) -> int:
+def _finish(prop, mod, ns, result_list, nshards, probe, known, seed, t0, probe_failed=None) -> int:
     if True:
         merged = merge(result_list)
         wall = time.time() - t0
@@ -318,6 +321,12 @@ def _finish(prop, mod, ns, result_list, nshards, probe, known, seed, t0) -> int:
                 rc = 1
         if len(new_keys) > 20:
             print(f"  ... and {len(new_keys) - 20} more violation keys (all in the evidence file)")
+        if probe_failed:
+            if not new_keys:
+                print(f"HARNESS-NONDETERMINISM property={prop} {probe_failed}: two runs of the same shard observed different things")
+                return 2
+            print(f"NOTE property={prop} {probe_failed}: the same cases gave different observations after a different load history (state carried between loads)")
+            probe = "FAILED: " + probe_failed + " differed between two worker processes"
 
         if not ns.no_evidence:
             level = mod.LEVEL
